@@ -464,7 +464,31 @@ _ADDED10 = {
     "C16": " (RB1) see C05.",
     "C17": " (RB1) see C05; (NL1) registered here too; (NL2, when nlohmann/json.hpp is installed) ReadProtocolValue decides the presence of a step by key lookup, never by is_null() or operator[] — a null item is a value.",
 }
-for _src in (_ADDED, _ADDED3, _ADDED4, _ADDED5, _ADDED6, _ADDED7, _ADDED8, _ADDED9, _ADDED10):
+# Clauses added after the eleventh round of independently seeded changes.
+_ADDED11 = {
+    "C01": " (PU1) every bytes-to-str conversion of the Python runtime decodes strictly (no error handler named); (NS2) see C04.",
+    "C02": " (PL3) the Python NDJSON reader separates documents at '\\n' only (readline), never with str.splitlines(); (PH3) the NDJSON writer puts the header line on the stream on every path of its constructor.",
+    "C03": " (PL3) see C02; (PU1) see C01.",
+    "C04": " (NS2) no MarshalJSON view of pkg/dsl sorts or reverses what it lists: cases, fields, values and steps appear in model order; (Q2) registered here too: resolution erases the spelling of a reference; (PH3) see C02.",
+    "C05": " (IX2) a store into a slice made with len(S) inside `range S` uses that loop's index (StepChanges is positional in the NEW protocol); (NC1) see C06; (RS1, extended) the body printed after `} else {` prints "
+           "on every generator path — a reset helper may not return early under a flag; (GR2) an emitted conversion that accumulates into its target (push_back, insert, +=) follows an emission that empties the target.",
+    "C06": " (NC1) every `X.Cases[1:]` (the cases without the leading null) stands under the fact X.Cases.HasNullOption() / IsOptional(); (IX2) see C05.",
+    "C08": " (RW1) see C18; (NK1) see C18; (W3) registered here too: a file whose content changed is rewritten (a stale generated file next to regenerated ones does not import).",
+    "C09": " (FS1) the walk that stamps parsed nodes with their file visits DefinitionMeta.TypeParameters itself (VisitChildren skips them); (VT1) a map a validation pass declares outside its visitor callback is never re-made or "
+           "cleared inside it; (RW1) see C18.",
+    "C10": " (FS1) see C09: every diagnostic names its file.",
+    "C11": " (R1) registered here too: type arguments given to a non-generic type are rejected before anything is resolved or written.",
+    "C12": " (GC2) in the git cache every successful path that runs `git fetch` runs `git checkout` afterwards (paths enumerated with the boolean flags tracked exactly).",
+    "C13": " (ST1) registered here too: type parameters are added to a copy of the symbol table, never to the shared one.",
+    "C14": " (PF1, PS1) registered here too: arrays are walked in row-major order, no zero-length block inside a stream.",
+    "C15": " (PU1) see C01: a header whose schema bytes are not valid text is an error, not a match; (NS2) see C04; (PH3) see C02.",
+    "C16": " (PU1) see C01; (PB3) in CodedInputStream the count of available bytes is 0 or a readinto() result and the buffer is the reader's own bytearray.",
+    "C17": " (GR2) see C05; (PB3) see C16.",
+    "C18": " (I2, extended) in parsePackageNamespaces every success return behind the memo store lies behind the loop that hands each import to the recursion; (RW1) the rewriter replaces a node by a whole copy (`x := *t`), a "
+           "node literal there sets every field (Namespace.References survives); (NK1) a back end skips a namespace of env.Namespaces only by its IsTopLevel flag, never by its contents; (GC2) see C12.",
+    "C19": " (SC1) in the resolution of a bare name the pattern variables in scope are searched before the record's fields and computed fields.",
+}
+for _src in (_ADDED, _ADDED3, _ADDED4, _ADDED5, _ADDED6, _ADDED7, _ADDED8, _ADDED9, _ADDED10, _ADDED11):
     for _k, _v in _src.items():
         if _k in PROPS:
             PROPS[_k]["explanation"] += _v
